@@ -376,7 +376,7 @@ def gen_command(rng, version, grouping):
                 subs = [(body, ops, apriori), (b2, o2, a2)]
                 gops = [o for _, so, sa in subs if sa == 'valid' and so for o in so]
                 c.update(line=sel_text + 'group ' + ' ; '.join(s[0] for s in subs), kind='group-inline', ops=gops, apriori='valid',
-                         sub=[s[2] for s in subs])
+                         sub=[[s[1], s[2], 'route'] for s in subs])
         return c
     if r < 0.76:
         line = {6: ['rib flush out', 'rib clear out', 'rib clear in'], 4: ['flush adj-rib out', 'clear adj-rib out', 'clear adj-rib in']}[version]
@@ -517,18 +517,24 @@ def run_sequence(version, cmds, chunk_seed, decorate_lines=True):
         addr_of = {k: str(n.session.peer_address) for k, n in rig.configuration.neighbors.items()}
         done = 0
         ack_on = True
-        grouping = False
-        group_ops = []
+
+        def group_buffer():
+            from exabgp.reactor.api.command import group as group_cmd
+
+            buf = group_cmd._GROUP_BUFFERS.get(SERVICE)
+            return None if buf is None else [command for _, command in buf]
 
         def one_step():
-            nonlocal done, ack_on, grouping, group_ops
+            nonlocal done, ack_on
             before = snapshot(rig)
             ack_before = rig.processes._ack[SERVICE]
+            gbuf_before = group_buffer()
             r = rig.step()
             if r is None:
                 return False
             svc, command, replies = r
             after = snapshot(rig)
+            grouping = gbuf_before is not None
             c = cmds[done]
             idx = done
             done += 1
@@ -537,7 +543,9 @@ def run_sequence(version, cmds, chunk_seed, decorate_lines=True):
             changed = sorted(a for a in after if after[a] != before[a])
             st = {'i': idx, 'line': c['line'], 'command': command, 'replies': lines_back, 'terminal': [t for t, _ in terms],
                   'changed': changed, 'before': before, 'after': after, 'ack_before': ack_before,
-                  'ack_after': rig.processes._ack[SERVICE], 'kind': c['kind'], 'grouping': grouping}
+                  'ack_after': rig.processes._ack[SERVICE], 'kind': c['kind'], 'grouping': grouping,
+                  'gbuf_before': gbuf_before, 'gbuf_after': group_buffer(), 'popped': getattr(rig, 'last_popped', 1),
+                  'scheduled': getattr(rig, 'last_scheduled', None), 'arrived': len(rig.processes._command_queue) + done}
             # ---- order: the command handed to API.process is the idx-th line
             if command.split() != normalise(c['line']) and normalise(command) != normalise(c['line']):
                 res.problems.append(('order:command-differs-from-line', f'command #{idx} is {command!r}, the line written was {c["line"]!r}', idx))
@@ -578,19 +586,17 @@ def run_sequence(version, cmds, chunk_seed, decorate_lines=True):
                     else:
                         sig = 'selector:other'
                     res.problems.append((sig, f'command #{idx} {c["line"]!r}: selector matches {expect_match} but the RIB of {outside} changed', idx))
-            # group bookkeeping (v6 only): what `group end` is expected to apply
-            if version == 6 and c['kind'] == 'group':
-                if c['line'] == 'group start' and not grouping:
-                    grouping, group_ops = True, []
-                    st['gops'] = []
-                elif c['line'] == 'group end' and grouping:
-                    grouping = False
-                    st['gops'] = group_ops
-                else:
-                    st['gops'] = None  # refused (nested start / end without start)
-            elif buffered:
-                if c['apriori'] == 'valid' and c['ops'] and c['kind'] in ('route', 'route6-self'):
-                    group_ops = group_ops + c['ops']
+            # ---- P5 a group is all-or-nothing: it reports a sub-command it could not use => nothing changed
+            if c['kind'] in ('group', 'group-inline') and changed:
+                bad_part = None
+                for ln in lines_back:
+                    m = re.search(r'"errors": \[(.*)\]', ln) or re.search(r', (\d+ errors)', ln)
+                    if m:
+                        bad_part = m.group(1)
+                if bad_part:
+                    sig = 'group:inline-partial-application' if c['kind'] == 'group-inline' else 'group:end-partial-application'
+                    res.problems.append((sig, f'command #{idx} {c["line"]!r} reports {bad_part[:200]} yet changed the RIB of {changed} '
+                                              f'(answered {st["terminal"]}): a command that fails to parse changes no RIB, and a group is all-or-nothing', idx))
             res.steps.append(st)
             return True
 
@@ -646,6 +652,31 @@ Definition okc (c : ribs * bool * outcome * ribs * bool * list Z) : bool :=
 Definition NS : list neighbor := %s.
 Definition oksel (c : list (list term) * list Z) : bool :=
   match c with (sel, peers) => zleq (select sel NS) peers end.
+(* group case: tables, ack, group buffer before; command; tables, ack, buffer after; terminal replies *)
+Definition opz (o : op) : list Z :=
+  match o with Announce k v => [1; k; v] | Withdraw k => [2; k] | ClearOut => [3] | Resend => [4] end.
+Definition subz (s : sub) : list Z := match s with None => [0] | Some ops => 1 :: flat_map opz ops end.
+Fixpoint zzeq (a b : list (list Z)) : bool :=
+  match a, b with [], [] => true | x :: a', y :: b' => zleq x y && zzeq a' b' | _, _ => false end.
+Definition bufeq (a b : option (list sub)) : bool :=
+  match a, b with None, None => true | Some x, Some y => zzeq (map subz x) (map subz y) | _, _ => false end.
+Definition ALL : list Z := map n_id NS.
+Definition okg (c : ribs * bool * option (list sub) * gcmd * ribs * bool * option (list sub) * list Z) : bool :=
+  match c with (before, ack, buf, cmd, after, ack', buf', reps) =>
+    match gexec ALL (mkG (mkX before ack) buf) cmd with (st, r) =>
+      req (g_ribs st) after && Bool.eqb (x_ack (g_x st)) ack' && bufeq (g_buf st) buf' && zleq (map rcode r) reps end end.
+(* main loop case: arrivals and iterations as they happened; the command ids handled in each iteration *)
+Fixpoint trace (st : lstate) (evs : list lev) : list (list Z) :=
+  match evs with
+  | [] => []
+  | Iterate :: r => let st' := iterate 1 st in skipn (length (l_written st)) (l_written st') :: trace st' r
+  | e :: r => trace (lstep 1 st e) r
+  end.
+Definition oksched (c : list lev * list (list Z)) : bool :=
+  match c with (evs, seen) => zzeq (trace linit evs) seen && zleq (l_written (lrun 1 linit evs) ++ map snd (l_wait (lrun 1 linit evs))) (arrived evs) end.
+(* text selector case: description strings, peer name, what limit.match_neighbor returned *)
+Definition okmatch (c : list (list Z) * list Z * bool) : bool :=
+  match c with (d, name, r) => Bool.eqb (match_neighbor d name) r end.
 Fixpoint bad {A} (f : A -> bool) (l : list A) (i : nat) : list nat :=
   match l with [] => [] | c :: l' => if f c then bad f l' (S i) else i :: bad f l' (S i) end.
 """
@@ -748,6 +779,88 @@ def outcome_of(st, c, version):
         else:
             return None, 'watchdog-mixed-state'
     return f'Ok {zlist(ids)} {coq_ops(ops)}', 'ok'
+
+
+def gcmd_of(st, c, version, lookup):
+    """The command as the group-level model sees it, with the group buffer read from the implementation before
+    and after.  -> (case text or None, label)"""
+    addrs = [n['ip'] for n in NEIGHBORS]
+
+    def sub_of(entry, targets):
+        ops, apriori, kind = entry
+        if kind == 'route6-self':
+            ok = apriori == 'valid' and ops is not None and all(':' in a for a in targets)
+        else:
+            ok = kind == 'route' and apriori == 'valid' and ops is not None
+        return f'Some {coq_ops(ops)}' if ok else 'None'
+
+    def buf_text(buf):
+        if buf is None:
+            return 'None'
+        return 'Some [' + ';'.join(sub_of(lookup.get(tuple(normalise(cmd)), (None, 'unknown', 'unknown')), addrs) for cmd in buf) + ']'
+
+    line = c['line'].strip().lower()
+    label = 'plain'
+    if version == 6 and c['kind'] == 'group':
+        cmd, label = ('GStart', 'group-start') if line == 'group start' else ('GEnd', 'group-end')
+    elif c['kind'] == 'group-inline':
+        sel = st['expect_match'] or []
+        subs = '[' + ';'.join(sub_of(tuple(s), sel) for s in c['sub']) + ']'
+        cmd, label = f'GInline {zlist(addrs.index(a) for a in sel)} {subs}', 'group-inline'
+    elif version == 6 and line.startswith(('announce', 'withdraw')):
+        cmd, label = f'GLine ({sub_of((c["ops"], c["apriori"], c["kind"]), addrs)}) Unknown', 'bare-line'
+    else:
+        text, label = outcome_of(st, c, version)
+        if text is None:
+            return None, label
+        cmd = f'GPlain ({text})'
+    if len(st['terminal']) > 1:
+        return None, 'several-replies'
+    reps = [{'D': 1, 'E': 2}[x] for x in st['terminal']]
+    b = lambda x: 'true' if x else 'false'
+    return (f'({coq_ribs(st["before"])}, {b(st["ack_before"])}, {buf_text(st["gbuf_before"])}, {cmd}, {coq_ribs(st["after"])}, '
+            f'{b(st["ack_after"])}, {buf_text(st["gbuf_after"])}, {zlist(reps)})'), label
+
+
+MATCH_IPS = ['2001:db8::1', '2001:db8::1:2', '2001:db8::12', '1:2001:db8::1', '10.0.0.1', '10.0.0.10', '110.0.0.1', '10.0.0.1.5', '127.0.0.2']
+
+
+def gen_match_case(rng):
+    """-> (description strings, peer name) around limit.match_neighbor's regular expression"""
+    ip = rng.choice(MATCH_IPS)
+    fields = [('neighbor', ip), ('local-ip', rng.choice(MATCH_IPS)), ('local-as', rng.choice(['65000', '6500', '650001', '165000'])),
+              ('peer-as', rng.choice(['65001', '6500'])), ('router-id', rng.choice(['1.2.3.4', '1.2.3.44', '11.2.3.4'])), ('family-allowed', 'in-open')]
+    r = rng.random()
+    if r < 0.7:
+        name = ' '.join(f'{k} {v}' for k, v in fields)
+    elif r < 0.8:
+        name = ', '.join(f'{k} {v}' for k, v in fields)  # the expression also accepts a comma after a term
+    elif r < 0.9:
+        name = rng.choice([' ', '\t', '']) + rng.choice(['  ', '\t', ' ']).join(f'{k}{rng.choice([" ", "  "])}{v}' for k, v in fields) + rng.choice(['', ' ', ','])
+    else:
+        name = ''.join(rng.choice('ab .,*x1:\t') for _ in range(rng.randint(0, 25)))
+    desc = []
+    for _ in range(rng.choice([1, 1, 2, 3])):
+        q = rng.random()
+        if q < 0.12:
+            desc.append(rng.choice(['neighbor *', 'peer *', ' neighbor * ', 'neighbor  *', '*', 'peer * ']))
+            continue
+        k, v = rng.choice(fields)
+        q = rng.random()
+        if q < 0.45:
+            pass
+        elif q < 0.6:
+            v = rng.choice(MATCH_IPS) if k in ('neighbor', 'local-ip') else v[:-1]
+        elif q < 0.7:
+            v = v[1:]
+        elif q < 0.8:
+            v = v + rng.choice(['0', ':2', ',', ' '])
+        elif q < 0.9:
+            v = v.replace('.', 'x').replace(':', '.')  # '.' has to be a literal dot (re.escape)
+        else:
+            k = rng.choice(['neighbor', 'local-ip', 'local-as', 'peer', 'eighbor', ''])
+        desc.append(rng.choice([f'{k} {v}', f'{k} {v}', f'{k}  {v}', f' {k} {v}']))
+    return desc, name
 
 
 # ------------------------------------------------------------------------------- replay / shrink
@@ -1007,6 +1120,8 @@ def check(tier, seed):
         seqs.append((version, [{'line': lines[0], 'kind': kind, 'defs': defs, 'ops': ops, 'apriori': 'valid', 'ack': None, 'sub': None}], 7))
 
     exec_items, exec_ref = [], []
+    sched_items, sched_ref = [], []
+    sched_hist = collections.Counter()
     sel_items, sel_ref = [], []
     prop_fail = []
     hist = collections.Counter()
@@ -1025,11 +1140,27 @@ def check(tier, seed):
         for sig, what, idx in res_b.problems:
             prop_fail.append((sig, what, si, idx))
         flagged = {idx for _, _, idx in res_b.problems}
+        lookup = {tuple(normalise(c['line'])): (c['ops'], c['apriori'], c['kind']) for c in cmds}
+        # the main loop as it ran: arrivals (what the reader had queued) and iterations, the ids handled per iteration
+        evs, seen_ids, arrived_so_far, nxt = [], [], 0, 0
+        for st in res_b.steps:
+            kinds = st['scheduled'] or [False]
+            while arrived_so_far < st['arrived']:
+                k = kinds[arrived_so_far - nxt] if 0 <= arrived_so_far - nxt < len(kinds) else False
+                evs.append(f'Arrive {"Scheduled" if k else "Immediate"} {arrived_so_far}')
+                arrived_so_far += 1
+            evs.append('Iterate')
+            seen_ids.append(zlist(range(nxt, nxt + st['popped'])))
+            sched_hist['scheduled' if kinds[0] else 'immediate'] += 1
+            nxt += st['popped']
+        if res_b.steps:
+            sched_items.append(f'([{";".join(evs)}], [{";".join(seen_ids)}])')
+            sched_ref.append((si, 0))
         for st in res_b.steps:
             c = cmds[st['i']]
             ncmd += 1
             kind_hist[f'v{version}:{c["kind"]}'] += 1
-            text, label = outcome_of(st, c, version)
+            text, label = gcmd_of(st, c, version, lookup)
             hist[label] += 1
             if text is None:
                 unexpected[label] += 1
@@ -1038,9 +1169,7 @@ def check(tier, seed):
             elif st['i'] in flagged:
                 hist['flagged-by-property-oracle(not compared)'] += 1
             else:
-                reps = [{'D': 1, 'E': 2}[t] for t in st['terminal']]
-                exec_items.append(f'({coq_ribs(st["before"])}, {"true" if st["ack_before"] else "false"}, {text}, {coq_ribs(st["after"])}, '
-                                  f'{"true" if st["ack_after"] else "false"}, {zlist(reps)})')
+                exec_items.append(text)
                 exec_ref.append((si, st['i']))
             if st.get('dispatch') is not None and st['dispatch'] != 'unknown' and c['defs'] is not None and st['i'] not in flagged:
                 sel_items.append(f'({coq_sel(c["defs"])}, {zlist(sorted(addrs.index(a) for a in st["dispatch"]))})')
@@ -1056,8 +1185,23 @@ def check(tier, seed):
     sshards2 = common.chunked(list(range(len(sel_items))), 400)
 
     def defs_e(idx):
-        return ('Definition cases : list (ribs * bool * outcome * ribs * bool * list Z) := [' + ';\n'.join(exec_items[i] for i in idx)
-                + '].\nEval vm_compute in (bad okc cases 0).\n')
+        return ('Definition cases : list (ribs * bool * option (list sub) * gcmd * ribs * bool * option (list sub) * list Z) := ['
+                + ';\n'.join(exec_items[i] for i in idx) + '].\nEval vm_compute in (bad okg cases 0).\n')
+
+    def defs_sched(idx):
+        return ('Definition cases : list (list lev * list (list Z)) := [' + ';\n'.join(sched_items[i] for i in idx)
+                + '].\nEval vm_compute in (bad oksched cases 0).\n')
+
+    n_match = 500 if quick else 6000
+    match_cases = [gen_match_case(rng) for _ in range(n_match)]
+    from exabgp.reactor.api.command.limit import match_neighbor as real_match_neighbor
+
+    match_obs = [bool(real_match_neighbor(d, name)) for d, name in match_cases]
+    match_items = [f'([{";".join(zs(s) for s in d)}], {zs(name)}, {"true" if r else "false"})' for (d, name), r in zip(match_cases, match_obs)]
+
+    def defs_match(idx):
+        return ('Definition cases : list (list (list Z) * list Z * bool) := [' + ';\n'.join(match_items[i] for i in idx)
+                + '].\nEval vm_compute in (bad okmatch cases 0).\n')
 
     def defs_l(idx):
         return ('Definition cases : list (list (list term) * list Z) := [' + ';\n'.join(sel_items[i] for i in idx)
@@ -1067,8 +1211,18 @@ def check(tier, seed):
     res_e = common.eval_cases(header_b, defs_e, eshards, 'c14e')
     run.notes.append(f'coq exec: {len(eshards)} shards {time.time() - t_mark:.1f}s')
     res_l = common.eval_cases(header_b, defs_l, sshards2, 'c14l')
-    ok_b = all(rc == 0 for rc, _, _ in res_e + res_l)
-    bad_e, bad_l = [], []
+    kshards = common.chunked(list(range(len(sched_items))), 60)
+    mshards = common.chunked(list(range(len(match_items))), 120)
+    res_k = common.eval_cases(header_b, defs_sched, kshards, 'c14k')
+    res_m = common.eval_cases(header_b, defs_match, mshards, 'c14m')
+    ok_b = all(rc == 0 for rc, _, _ in res_e + res_l + res_k + res_m)
+    bad_e, bad_l, bad_k, bad_m = [], [], [], []
+    for shard, (rc, out, parsed) in zip(kshards, res_k):
+        if rc == 0 and parsed:
+            bad_k += [sched_ref[shard[j]] for j in common.nat_list_of(parsed[0])]
+    for shard, (rc, out, parsed) in zip(mshards, res_m):
+        if rc == 0 and parsed:
+            bad_m += [shard[j] for j in common.nat_list_of(parsed[0])]
     for shard, (rc, out, parsed) in zip(eshards, res_e):
         if rc == 0 and parsed:
             bad_e += [exec_ref[shard[j]] for j in common.nat_list_of(parsed[0])]
@@ -1076,7 +1230,7 @@ def check(tier, seed):
         if rc == 0 and parsed:
             bad_l += [sel_ref[shard[j]] for j in common.nat_list_of(parsed[0])]
     run.obligation('model evaluation (vm_compute of Model_Api.exec / select on every executed command) ran', ok_b,
-                   '\n'.join(out for rc, out, _ in res_e + res_l if rc != 0)[-2000:])
+                   '\n'.join(out for rc, out, _ in res_e + res_l + res_k + res_m if rc != 0)[-2000:])
 
     def show_cmd(ref):
         si, i = ref
@@ -1084,8 +1238,15 @@ def check(tier, seed):
         return f'v{version} {cmds[i]["line"]!r} (sequence {si}, command {i}: {[c["line"] for c in cmds[: i + 1]][-4:]})'
 
     run.obligation(f'correspondence (execution): tables (prefix -> med) of every neighbor, ack state and terminal replies after each of '
-                   f'{len(exec_items)} commands = Model_Api.exec on the tables before and the outcome class', not bad_e,
+                   f'{len(exec_items)} commands = Model_Api.gexec (exec under the group buffer, read from the implementation) on the tables before and the outcome class', not bad_e,
                    f'{len(bad_e)} disagreements; first: {show_cmd(bad_e[0]) if bad_e else ""}')
+    run.obligation(f'correspondence (main loop): commands handled per iteration and the final order = Model_Api.iterate/lrun with one command per '
+                   f'iteration on {len(sched_items)} sequences ({dict(sched_hist)} commands answered at once / by a scheduled callback)', not bad_k,
+                   f'{len(bad_k)} disagreements; first: {show_cmd(bad_k[0]) if bad_k else ""}')
+    run.obligation(f'correspondence (selector text): limit.match_neighbor = Model_Api.match_neighbor (the regular expression as a token-boundary '
+                   f'search) on {len(match_items)} (description, peer name) pairs incl. addresses that are prefixes of one another; '
+                   f'{sum(match_obs)} of them match', not bad_m,
+                   f'{len(bad_m)} disagreements; first: {match_cases[bad_m[0]] if bad_m else ""}')
     run.obligation(f'correspondence (selectors): peers chosen by dispatch_v4/dispatch_v6 = Model_Api.select on {len(sel_items)} selector-carrying commands',
                    not bad_l, f'{len(bad_l)} disagreements; first: {show_cmd(bad_l[0]) if bad_l else ""}')
     run.obligation(f'property oracle (execution): one terminal reply per command in order, error => no RIB changed, '
